@@ -45,7 +45,7 @@ func c02Claimed(w *l1World, offered map[string]wd) error {
 
 func TestC02Rapid(t *testing.T) {
 	rec := evid.For("C02")
-	runRapid(t, 300, 6000, func(rt *rapid.T) {
+	runRapid(t, 150, 6000, func(rt *rapid.T) {
 		c := rec.Begin()
 		w := newL1World(rt, l1Cfg{weights: c02Weights, maxBridges: 2, badCfgProb: 0, manyBridges: true, periods: []time.Duration{time.Second, 10 * time.Second}})
 		for i := rapid.IntRange(1, 2).Draw(rt, "initial"); i > 0; i-- {
